@@ -161,6 +161,7 @@ def verify_update(world, units, spec: M.Spec, concrete_cls=None, engine_kw=None,
             if isinstance(w, MV): equiv_mv(I, res, w, qual)
             elif isinstance(w, tuple) and w[0] == "q": equiv_q(I, res, w[1], w[2], qual)
             elif w is None: pass
+            elif isinstance(w, KDict): I.equiv(res, w, qual)
             else: raise Unsupported(f"spec result {type(w).__name__}")
             check_model_untouched(I, spec.attr, qual)
             check_completeness(I, res, qual)
